@@ -192,6 +192,8 @@ def run_verus_unit(name, spec, tier):
         res.update(status="inconclusive", reason="fidelity check failed: generated text differs from /repo source for %s" % [f["item"] for f in fid if not f["identical_modulo_whitespace"]])
         return res
     trusted, bad = _scan_assumptions(gen, report)
+    for it in report.get("termination_unchecked", []):
+        trusted.append("termination of %s is not checked (#[verifier::exec_allows_no_decreases_clause]); partial correctness only" % it)
     res["trusted"] = trusted
     if bad:
         res.update(status="inconclusive", reason="assume/admit inside proved body: %s" % bad)
